@@ -35,10 +35,10 @@ func checkC05(c *km.Ctx) {
 	r.NotDecided = []string{"the multi-step, multi-user history space", "replay across several servers", "the external VIP / Okta services"}
 	r.Assume = []string{"go/types + go/ssa model the source faithfully", "the verifier libraries (tstranex/u2f, duo-labs/webauthn, pquerna/otp, lib/vip, okta) verify what they claim"}
 
-	r.Rule("R-C05-1", "a session level only ever grows by OR-ing constant factor bits onto the authenticated session's own level; fresh sessions are minted only at the three creating sites with their single constant level", 12)
-	r.Rule("R-C05-2", "each added factor bit is dominated by the success edge of that factor's verifier, applied to the authenticated user (or to a record bound to that user)", 9)
-	r.Rule("R-C05-3", "the cookie that is re-signed belongs to the authenticated user: the upgrade is called with authUser and the re-signing function compares the cookie's verified subject with it", 11)
-	r.Rule("R-C05-4", "one-time values are consumed before they take effect and expired ones are refused (TOTP counter stored; bootstrap OTP cleared and saved; challenge deleted in the lookup's critical section and unexpired)", 7)
+	r.Rule("R-C05-1", "a session level only ever grows by OR-ing constant factor bits onto the authenticated session's own level; fresh sessions are minted only at the three creating sites with their single constant level", 5)
+	r.Rule("R-C05-2", "each added factor bit is dominated by the success edge of that factor's verifier, applied to the authenticated user (or to a record bound to that user)", 3)
+	r.Rule("R-C05-3", "the cookie that is re-signed belongs to the authenticated user: the upgrade is called with authUser and the re-signing function compares the cookie's verified subject with it", 4)
+	r.Rule("R-C05-4", "one-time values are consumed before they take effect and expired ones are refused (TOTP counter stored; bootstrap OTP cleared and saved; challenge deleted in the lookup's critical section and unexpired)", 3)
 
 	consts := authTypeConsts(c)
 	byVal := map[int64]string{}
